@@ -237,8 +237,14 @@ pub fn gen_staggered_service(rng: &mut crate::prng::Rng) -> History {
 ///     of them must be (and stay) validated, none of the others may be.
 pub fn gen_many_peers(rng: &mut crate::prng::Rng) -> History {
     let npeers = 70 + rng.usize(171);
-    let first = NCORE + rng.usize(NADDR - NCORE - npeers + 1);
+    let first = NCORE + rng.usize(256 - NCORE - npeers + 1); // single-peer operations carry u8 indices
     let mut ops = vec![];
+    // one history in four starts with a burst of 300..=6000 further peers (beyond any small cache size)
+    if rng.chance(1, 4) {
+        let count = *rng.pick(&[300usize, 513, 600, 1025, 1500, 2049, 4097, 6000]);
+        let bfirst = 256 + rng.usize(NADDR - 256 - count);
+        ops.push(Op::IncomingBurst { first: bfirst as u16, count: count as u16 });
+    }
     for k in 0..npeers {
         let from = (first + k) as u8;
         match rng.below(4) {
